@@ -217,8 +217,22 @@ def tree_of(x):
 
 
 class _FakeLink:
+    """a link whose attributes are symbolic numbers; every attribute READ is recorded (so that a parameter computed from
+    `initial_setting` instead of the current `setting` is seen)"""
+
     def __init__(self, **kw):
-        self.__dict__.update(kw)
+        self.__dict__["_vals"] = dict(kw)
+        self.__dict__["reads"] = []
+        self.__dict__["name"] = "L"
+
+    def __getattr__(self, nm):
+        if nm.startswith("__"):
+            raise AttributeError(nm)
+        if nm not in self.reads:
+            self.reads.append(nm)
+        if nm in self._vals:
+            return self._vals[nm]
+        return SymF.leaf(nm, 1.5)  # an attribute the documented formula does not use
 
 
 class _FakeWn:
@@ -228,6 +242,8 @@ class _FakeWn:
         self.valve_name_list = list(links)
         self.tcv_name_list = list(links)
 
+        self.power_pump_name_list = list(links)
+
     def get_link(self, n):
         return self._l[n]
 
@@ -235,6 +251,22 @@ class _FakeWn:
 class _NoUpdater:
     def add(self, *a, **k):
         pass
+
+
+def trace_param_reads(wntr):
+    """{parameter Definition class: sorted link attributes its build() READS} for the link parameters of the rows"""
+    from wntr.sim import aml
+    from wntr.sim.models import param, constants
+
+    out = {}
+    for cls in ("hw_resistance_param", "minor_loss_param", "tcv_resistance_param", "pump_power_param", "valve_setting_param"):
+        m = aml.Model()
+        constants.hazen_williams_constants(m)
+        link = _FakeLink(roughness=SymF.leaf("roughness", 100.0), diameter=SymF.leaf("diameter", 0.3), length=SymF.leaf("length", 200.0),
+                         minor_loss=SymF.leaf("minor_loss", 2.0), setting=SymF.leaf("setting", 3.0), power=SymF.leaf("power", 1000.0))
+        getattr(param, cls).build(m, _FakeWn({"L": link}), _NoUpdater())
+        out[cls] = sorted(a for a in link.reads if a != "name")
+    return out
 
 
 def trace_param_formulas(wntr):
@@ -559,7 +591,14 @@ def gen_updater(wntr):
         out.append("end %s" % ns)
         out.append("")
         info[mode] = sum(len(v) for v in regs.values())
+    reads = trace_param_reads(wntr)
+    out.append("/-- which link attributes each parameter Definition's `build` READS (recorded on a link with symbolic attributes) -/")
+    out.append("def paramReads : List (String × List String) := [")
+    out.append(",\n".join("  (%s, [%s])" % (lean_str(c), ", ".join(lean_str(a) for a in v)) for c, v in reads.items()))
+    out.append("]")
+    out.append("")
     out.append("end Wntr.Gen.UpdaterC02")
+    info["param_reads"] = reads
     return "\n".join(out) + "\n", info
 
 
